@@ -1,15 +1,736 @@
+// C06: autoescaping confines every shown untrusted value to its syntactic slot.
+//
+// End-to-end oracle (independent of every model): grammar-generated template documents (gen.go)
+// are built and run by the real engine (scriggo.BuildTemplate + Template.Run) once with a benign
+// value and once with each value drawn from a context-breaking dictionary plus random Unicode /
+// random bytes (vars.go). Both outputs are tokenised with reference tokenizers of the enclosing
+// languages (tok.go: x/net/html, encoding/json, goldmark, a JS lexer and a CSS tokenizer) and must
+// have the SAME token structure; the content of the slot tokens, decoded, must be the benign
+// content with the marker replaced by the shown value.
+//
+// Correspondence: the real escapers (through the C07 bridge) vs. Model/Escape through the driver,
+// on the values used. Spec validation: the slot scanners of Spec/Slots.lean vs. the reference
+// tokenizers ("confined" implies "same structure").
+//
+// Constructs with a recorded known finding live in a separate RISKY stream; a failure there is
+// shrunk (value, then template) and must match its finding's class exactly, anything else is a
+// violation.
 package main
 
 import (
+	"bytes"
 	"fmt"
+	"sort"
 	"strings"
+	"unicode/utf8"
 
-	"golang.org/x/net/html"
+	"github.com/open2b/scriggo"
+	"github.com/open2b/scriggo/ast"
+	hook6 "github.com/open2b/scriggo/verifhook/c06"
+	hook7 "github.com/open2b/scriggo/verifhook/c07"
+	"github.com/yuin/goldmark"
+	gast "github.com/yuin/goldmark/ast"
+	"github.com/yuin/goldmark/text"
+
+	"verifharness/internal/hx"
+	"verifharness/internal/proto"
 )
 
-func main() {
-	z := html.NewTokenizer(strings.NewReader("<p a=b>x</p>"))
-	for z.Next() != html.ErrorToken {
-		fmt.Println(z.Token())
+func main() { hx.Main("C06", run) }
+
+var md = goldmark.New()
+
+// mdTokens: the block / inline structure goldmark sees (node kinds; text content is the slot)
+func mdTokens(s string) []tok {
+	src := []byte(s)
+	root := md.Parser().Parse(text.NewReader(src))
+	var out []tok
+	gast.Walk(root, func(n gast.Node, entering bool) (gast.WalkStatus, error) {
+		if !entering {
+			out = append(out, tok{sig: "md:/" + n.Kind().String()})
+			return gast.WalkContinue, nil
+		}
+		switch n.Kind() {
+		case gast.KindText, gast.KindString:
+			// adjacent text nodes are one slot
+			if len(out) > 0 && out[len(out)-1].sig == "md:text" {
+				return gast.WalkSkipChildren, nil
+			}
+			out = append(out, tok{sig: "md:text", slot: true})
+			return gast.WalkSkipChildren, nil
+		}
+		out = append(out, tok{sig: "md:" + n.Kind().String()})
+		return gast.WalkContinue, nil
+	})
+	// text nodes are split arbitrarily (escapes, soft breaks): collapse "/Text" closers and repeats
+	var res []tok
+	for _, t := range out {
+		if t.sig == "md:/Text" || t.sig == "md:/String" {
+			continue
+		}
+		if t.sig == "md:text" && len(res) > 0 && res[len(res)-1].sig == "md:text" {
+			continue
+		}
+		res = append(res, t)
 	}
+	return res
+}
+
+func formatOf(f string) ast.Format {
+	switch f {
+	case "html":
+		return ast.FormatHTML
+	case "css":
+		return ast.FormatCSS
+	case "js":
+		return ast.FormatJS
+	case "json":
+		return ast.FormatJSON
+	case "md":
+		return ast.FormatMarkdown
+	}
+	return ast.FormatText
+}
+
+var urlAttrs = map[string]bool{"href": true, "src": true, "srcset": true, "action": true, "formaction": true, "cite": true,
+	"data": true, "longdesc": true, "manifest": true, "poster": true, "xmlns": true}
+
+// structure tokenises rendered output. subAttr additionally sub-tokenises event-handler and
+// style attribute values as JS / CSS (risky stream only).
+func structure(format, out string, subAttr bool) []tok {
+	switch format {
+	case "html":
+		ts := htmlTokens(out)
+		if !subAttr {
+			return ts
+		}
+		var res []tok
+		name := ""
+		for _, t := range ts {
+			res = append(res, t)
+			if t.sig == "html:attr-name" {
+				name = t.val
+			}
+			if t.sig == "html:attr-value" {
+				if strings.HasPrefix(name, "on") {
+					res = append(res, jsTokens(t.val)...)
+				} else if name == "style" {
+					res = append(res, cssTokens(t.val)...)
+				}
+			}
+		}
+		return res
+	case "js":
+		return jsTokens(out)
+	case "css":
+		return cssTokens(out)
+	case "json":
+		return jsonTokens(out)
+	case "md":
+		return mdTokens(out)
+	}
+	return []tok{{sig: "text", slot: true, val: out}}
+}
+
+type built struct {
+	d      doc
+	t      *scriggo.Template
+	benign string
+	toks   []tok
+	sig    string
+	holes  []hook6.Hole
+	sub    bool
+}
+
+func runTemplate(t *scriggo.Template, vars map[string]any) (out string, err error) {
+	defer func() {
+		if r := recover(); r != nil {
+			err = fmt.Errorf("host panic: %v", r)
+		}
+	}()
+	var b bytes.Buffer
+	err = t.Run(&b, vars, nil)
+	return b.String(), err
+}
+
+func build(d doc) (*built, error) {
+	files := scriggo.Files{d.fileName(): []byte(d.src)}
+	for n, s := range d.extra {
+		files[n] = []byte(s)
+	}
+	t, err := scriggo.BuildTemplate(files, d.fileName(), &scriggo.BuildOptions{Globals: globals})
+	if err != nil {
+		return nil, err
+	}
+	b := &built{d: d, t: t, sub: d.risky == "attr-subcontext"}
+	if b.benign, err = runTemplate(t, varsFor(benign)); err != nil {
+		return nil, fmt.Errorf("benign run: %v", err)
+	}
+	b.toks = structure(d.format, b.benign, b.sub)
+	b.sig = sigOf(b.toks)
+	b.holes, _ = hook6.Holes([]byte(d.src), formatOf(d.format))
+	return b, nil
+}
+
+func normNL(s string) string {
+	return strings.ReplaceAll(strings.ReplaceAll(s, "\r\n", "\n"), "\r", "\n")
+}
+
+// check runs the template with val and compares with the benign run. clause "" = holds.
+func (b *built) check(val string) (clause, detail, out string) {
+	out, err := runTemplate(b.t, varsFor(val))
+	if err != nil {
+		return "run-error", err.Error(), out
+	}
+	toks := structure(b.d.format, out, b.sub)
+	if sig := sigOf(toks); sig != b.sig {
+		return "token-structure-differs", firstDiff(b.sig, sig), out
+	}
+	// same structure: the decoded slot content must be the benign content with the marker replaced
+	attrName := ""
+	for i, t := range toks {
+		bt := b.toks[i]
+		if t.sig == "html:attr-name" {
+			attrName = t.val
+			if t.val != bt.val && !strings.Contains(bt.val, benign) {
+				return "attribute-name-changed", fmt.Sprintf("%q -> %q", bt.val, t.val), out
+			}
+			continue
+		}
+		if !t.slot || !strings.Contains(bt.val, benign) {
+			continue
+		}
+		var want string
+		switch t.sig {
+		case "html:text":
+			want = strings.ReplaceAll(bt.val, benign, val)
+		case "html:attr-value":
+			if urlAttrs[attrName] {
+				continue
+			}
+			want = strings.ReplaceAll(bt.val, benign, val)
+		case "js:string":
+			want = strings.ReplaceAll(bt.val, benign, val)
+		case "json:string":
+			if !utf8.ValidString(val) {
+				continue
+			}
+			want = strings.ReplaceAll(bt.val, benign, val)
+		case "css:string":
+			want = strings.ReplaceAll(bt.val, benign, strings.ReplaceAll(val, "\x00", "�"))
+		default:
+			continue
+		}
+		if normNL(t.val) != normNL(want) {
+			return "slot-content-differs", fmt.Sprintf("%s: decoded %q, want %q", t.sig, t.val, want), out
+		}
+	}
+	return "", "", out
+}
+
+func firstDiff(a, b string) string {
+	al, bl := strings.Split(a, "\n"), strings.Split(b, "\n")
+	for i := 0; i < len(al) || i < len(bl); i++ {
+		var x, y string
+		if i < len(al) {
+			x = al[i]
+		}
+		if i < len(bl) {
+			y = bl[i]
+		}
+		if x != y {
+			return fmt.Sprintf("token %d: benign %q, with the value %q (benign has %d tokens, this run %d)", i, x, y, len(al)-1, len(bl)-1)
+		}
+	}
+	return ""
+}
+
+// ---------------------------------------------------------------- shrinking and classification
+
+type failure struct {
+	b      *built
+	val    string
+	clause string
+	detail string
+	out    string
+}
+
+// shrink minimises the value, then the template, then the value again.
+func shrink(f failure) failure {
+	failingVal := func(b *built) func([]byte) bool {
+		return func(v []byte) bool {
+			c, _, _ := b.check(string(v))
+			return c != "" && c != "run-error"
+		}
+	}
+	val := hx.ShrinkBytes([]byte(f.val), failingVal(f.b))
+	cur := f.b
+	src := hx.ShrinkBytes([]byte(f.b.d.src), func(s []byte) bool {
+		if !bytes.Contains(s, []byte("{{")) {
+			return false
+		}
+		d := cur.d
+		d.src = string(s)
+		nb, err := build(d)
+		if err != nil {
+			return false
+		}
+		c, _, _ := nb.check(string(val))
+		return c != "" && c != "run-error"
+	})
+	d := f.b.d
+	d.src = string(src)
+	nb, err := build(d)
+	if err != nil {
+		return f
+	}
+	val = hx.ShrinkBytes(val, failingVal(nb))
+	c, det, out := nb.check(string(val))
+	if c == "" {
+		return f
+	}
+	return failure{b: nb, val: string(val), clause: c, detail: det, out: out}
+}
+
+// the hole whose lexer context explains the failure: with one hole left after shrinking, that one
+func (f failure) holeContexts() []string {
+	var cs []string
+	for _, h := range f.b.holes {
+		c := h.Context
+		if h.InURL {
+			c += "+URL"
+		}
+		cs = append(cs, c)
+	}
+	return cs
+}
+
+var holeVarRe = func(src string) []string {
+	var vs []string
+	for {
+		i := strings.Index(src, "{{")
+		if i < 0 {
+			return vs
+		}
+		j := strings.Index(src[i:], "}}")
+		if j < 0 {
+			return vs
+		}
+		vs = append(vs, strings.TrimSpace(src[i+2:i+j]))
+		src = src[i+j+2:]
+	}
+}
+
+// classify maps a SHRUNK failure to the id of the known finding it is an instance of, or "".
+// Each rule states the whole class; anything outside is a new violation.
+func classify(f failure) string {
+	src := f.b.d.src
+	ctxs := f.holeContexts()
+	vars := holeVarRe(src)
+	only := func(ctx string) bool {
+		if len(ctxs) == 0 {
+			return false
+		}
+		for _, c := range ctxs {
+			if c != ctx {
+				return false
+			}
+		}
+		return true
+	}
+	switch {
+	case strings.Contains(src, "{{ render ") || strings.Contains(src, "{{render "):
+		// {{ render "f" }} of a file whose format differs from the context is written raw
+		for n := range f.b.d.extra {
+			if strings.Contains(src, `"`+n+`"`) && !strings.HasSuffix(n, "."+f.b.d.format) {
+				return "render-fastpath-format"
+			}
+		}
+		return ""
+	case len(vars) > 0 && allEqual(vars, "bs") && only("HTML"):
+		return "bytes-raw-in-html"
+	case only("tag"):
+		// the Tag context does not replace U+0020 (nor `<`): the value adds attributes
+		if strings.ContainsAny(f.val, " <") {
+			return "tag-context-space"
+		}
+		return ""
+	case strings.Contains(src, "<!--") && commentHasMarkup(src):
+		return "html-comment-desync"
+	case strings.Contains(src, "`") && inScript(src, "`"):
+		return "js-template-literal"
+	case scriptHasRegexWithQuote(src):
+		return "js-regex-literal-quote"
+	case only("unquoted attribute") && f.val == "" && f.b.d.format == "html":
+		return "unquoted-attr-empty-value"
+	case f.b.sub && (only("quoted attribute") || only("unquoted attribute")) && attrIsEventOrStyle(src):
+		return "attr-js-css-not-contextual"
+	}
+	return ""
+}
+
+func allEqual(ss []string, want string) bool {
+	for _, s := range ss {
+		if s != want {
+			return false
+		}
+	}
+	return true
+}
+
+// an HTML comment in the template text contains `<`: the lexer, which has no comment state,
+// starts a tag there
+func commentHasMarkup(src string) bool {
+	i := strings.Index(src, "<!--")
+	if i < 0 {
+		return false
+	}
+	rest := src[i+4:]
+	if j := strings.Index(rest, "-->"); j >= 0 {
+		rest = rest[:j]
+	}
+	return strings.Contains(rest, "<")
+}
+
+func inScript(src, what string) bool {
+	i := strings.Index(strings.ToLower(src), "<script")
+	return i >= 0 && strings.Contains(src[i:], what)
+}
+
+// the script text of the template (holes replaced by 0) contains a regular-expression literal
+// with a quote character in it
+func scriptHasRegexWithQuote(src string) bool {
+	low := strings.ToLower(src)
+	i := strings.Index(low, "<script")
+	if i < 0 {
+		return false
+	}
+	j := strings.Index(src[i:], ">")
+	if j < 0 {
+		return false
+	}
+	body := src[i+j+1:]
+	if k := strings.Index(strings.ToLower(body), "</script"); k >= 0 {
+		body = body[:k]
+	}
+	for {
+		a := strings.Index(body, "{{")
+		if a < 0 {
+			break
+		}
+		b := strings.Index(body[a:], "}}")
+		if b < 0 {
+			break
+		}
+		body = body[:a] + "0" + body[a+b+2:]
+	}
+	for _, t := range jsTokens(body) {
+		if t.sig == "js:regex" && strings.ContainsAny(t.val, `"'`) {
+			return true
+		}
+	}
+	return false
+}
+
+func attrIsEventOrStyle(src string) bool {
+	low := strings.ToLower(src)
+	i := strings.Index(low, "{{")
+	if i < 0 {
+		return false
+	}
+	before := low[:i]
+	k := strings.LastIndexAny(before, " \t\n<")
+	if k < 0 {
+		return false
+	}
+	name := before[k+1:]
+	if e := strings.Index(name, "="); e >= 0 {
+		name = strings.TrimSpace(name[:e])
+	}
+	return strings.HasPrefix(name, "on") || name == "style"
+}
+
+// ---------------------------------------------------------------- known findings (replayed first)
+
+type knownCase struct {
+	id    string
+	d     doc
+	val   string
+	human string
+}
+
+func knownCases() []knownCase {
+	h := func(src string) doc { return doc{format: "html", src: src, extra: map[string]string{}} }
+	kc := []knownCase{
+		{id: "js-regex-literal-quote", d: h(`<script>var r = /"/; var x = {{ s }};</script>`), val: "alert(1)"},
+		{id: "js-template-literal", d: h("<script>var x = `{{ s }}`;</script>"), val: "`+alert(1)+`"},
+		{id: "html-comment-desync", d: h(`<!-- <script> --><a title="{{ s }}">`), val: `" onclick="alert(1)`},
+		{id: "tag-context-space", d: h(`<div {{ s }}>`), val: "a onclick"},
+		{id: "bytes-raw-in-html", d: h(`<p>{{ bs }}</p>`), val: "<b>"},
+		{id: "unquoted-attr-empty-value", d: h(`<input value={{ s }} disabled>`), val: ""},
+		{id: "attr-js-css-not-contextual", d: func() doc { d := h(`<a onclick="go({{ s }})">`); d.risky = "attr-subcontext"; return d }(), val: "alert(1)"},
+	}
+	r := h(`<p>{{ render "x.txt" }}</p>`)
+	r.extra["x.txt"] = "{{ s }}"
+	kc = append(kc, knownCase{id: "render-fastpath-format", d: r, val: "<b>"})
+	for i := range kc {
+		kc[i].human = fmt.Sprintf("%svalue (s, bs, …) = %q", kc[i].d.human(), kc[i].val)
+	}
+	return kc
+}
+
+// ---------------------------------------------------------------- run
+
+func run(c *hx.Ctx) error {
+	res := c.Res
+	res.Rule = "a case is one (template document, shown value) pair rendered by the real engine and compared, token structure and decoded slot content, with the rendering of the same document for the benign value; documents come from a grammar over HTML (text, RCDATA, raw text, comments, quoted/unquoted/URL/srcset/event/style attributes, script and style elements with type variants) and standalone JS, CSS, JSON and Markdown files with holes of 15 variable types at every slot; values from a 230-entry context-breaking dictionary, fragment concatenations, random Unicode and random bytes. Non-trivial = the value is not the benign marker and contains a byte outside [A-Za-z0-9]; distinct by (document, value)"
+
+	if err := specValidation(c); err != nil {
+		return err
+	}
+	used := map[string]bool{}
+
+	report := func(f failure, stream string) {
+		sf := shrink(f)
+		id := classify(sf)
+		human := fmt.Sprintf("%sshown value (every string-carrying variable is built from it) = %q\nbenign output:  %s\noutput:         %s\n%s\nlexer contexts of the holes: %v\n[before shrinking: value %q in]\n%s",
+			sf.b.d.human(), sf.val, sf.b.benign, sf.out, sf.detail, sf.holeContexts(), f.val, f.b.d.human())
+		br := proto.Break{Kind: "property", Name: sf.clause + " (" + stream + " stream)", Case: fmt.Sprintf("C06 doc %s %s value %s", sf.b.d.format, proto.Hex([]byte(sf.b.d.src)), proto.Hex([]byte(sf.val))),
+			Human: human, Impl: sf.out, Model: sf.b.benign}
+		if id != "" {
+			br.Finding = c.Known(id)
+			if br.Finding == "" {
+				br.Name += " [class " + id + " — not listed in known_findings.json]"
+			}
+		}
+		res.AddBreak(br)
+	}
+
+	// 1. known findings: replay each recorded minimal case on the real engine
+	for _, k := range knownCases() {
+		if !c.HasFinding(k.id) {
+			continue
+		}
+		b, err := build(k.d)
+		if err != nil {
+			res.Notes = append(res.Notes, "known finding "+k.id+": template no longer builds: "+err.Error())
+			continue
+		}
+		clause, detail, out := b.check(k.val)
+		res.Count("known:"+k.id, true)
+		if clause == "" {
+			res.Notes = append(res.Notes, "known finding "+k.id+" no longer reproduces")
+			continue
+		}
+		f := failure{b: b, val: k.val, clause: clause, detail: detail, out: out}
+		if got := classify(f); got != k.id {
+			return fmt.Errorf("classifier maps the recorded case of %s to %q", k.id, got)
+		}
+		res.AddBreak(proto.Break{Kind: "property", Name: clause + " (recorded minimal case)", Case: "C06 known " + k.id,
+			Human: k.human + "\nbenign output: " + b.benign + "\noutput:        " + out + "\n" + detail, Impl: out, Model: b.benign, Finding: k.id})
+	}
+
+	// 2. the two streams
+	g := &gen{r: c.R}
+	nDocs := c.N(1300, 16000)
+	nVals := c.N(9, 14)
+	built6, buildErr := 0, 0
+	for i := 0; i < nDocs; i++ {
+		var d doc
+		stream := "main"
+		if i%8 == 7 {
+			d = g.riskyDoc()
+			stream = "risky"
+		} else {
+			d = g.mainDoc()
+		}
+		b, err := build(d)
+		if err != nil {
+			buildErr++
+			res.Hist("build-error:" + stream)
+			if buildErr <= 12 {
+				res.Notes = append(res.Notes, "generator produced a document that does not build: "+err.Error()+"\n"+d.human())
+			}
+			continue
+		}
+		built6++
+		for _, f := range d.feats {
+			res.Hist("feature:" + f)
+		}
+		for _, h := range b.holes {
+			k := "hole-context:" + h.Context
+			if h.InURL {
+				k += "+URL"
+			}
+			res.Hist(k)
+		}
+		if i%100 == 0 {
+			res.Sample(map[string]any{"stream": stream, "file": d.fileName(), "template": d.src, "benign_output": b.benign})
+		}
+		reported := false
+		for j := 0; j < nVals; j++ {
+			val := randValue(c.R)
+			if d.format == "md" && strings.ContainsAny(val, "\t\r\n\f\v") {
+				continue // line structure of Markdown values is property C26
+			}
+			used[val] = true
+			nontrivial := val != benign && strings.IndexFunc(val, func(r rune) bool {
+				return !('a' <= r && r <= 'z' || 'A' <= r && r <= 'Z' || '0' <= r && r <= '9')
+			}) >= 0
+			res.Count(d.src+"\x00"+val, nontrivial)
+			clause, detail, out := b.check(val)
+			if clause == "run-error" {
+				res.Hist("run-error")
+				if res.Histogram["run-error"] <= 3 {
+					res.Notes = append(res.Notes, "run error (outside this property): "+detail+"\n"+d.human())
+				}
+				continue
+			}
+			if clause != "" {
+				res.Hist("failing:" + stream)
+				if !reported { // one report per document is enough; shrinking is the expensive part
+					reported = true
+					report(failure{b: b, val: val, clause: clause, detail: detail, out: out}, stream)
+				}
+			}
+		}
+	}
+	res.Histogram["documents-built"] = built6
+	if built6 < nDocs*9/10 {
+		return fmt.Errorf("only %d of %d generated documents build — generator is broken", built6, nDocs)
+	}
+
+	// 3. correspondence of the escapers on the values used
+	return correspondence(c, used)
+}
+
+// ---------------------------------------------------------------- correspondence and spec validation
+
+func correspondence(c *hx.Ctx, used map[string]bool) error {
+	if c.D == nil {
+		c.Res.Notes = append(c.Res.Notes, "driver not built: escaper correspondence skipped")
+		return nil
+	}
+	var vals []string
+	for v := range used {
+		vals = append(vals, v)
+	}
+	sort.Strings(vals)
+	type esc struct {
+		op, which string
+		ee, q     bool
+	}
+	escs := []esc{{"html", "html", false, false}, {"attr11", "attr", true, true}, {"attr10", "attr", true, false}, {"attr01", "attr", false, true},
+		{"attr00", "attr", false, false}, {"js", "js", false, false}, {"css", "css", false, false}, {"path0", "path", false, false}, {"path1", "path", false, true}, {"query", "query", false, false}}
+	var lines []string
+	for _, v := range vals {
+		for _, e := range escs {
+			lines = append(lines, "C06 esc "+e.op+" "+proto.Hex([]byte(v)))
+		}
+	}
+	model, err := c.D.Batch(lines)
+	if err != nil {
+		return err
+	}
+	k := 0
+	for _, v := range vals {
+		for _, e := range escs {
+			chunks, _, err := hook7.Escape(e.which, v, e.ee, e.q)
+			impl := "ok " + proto.Hex([]byte(strings.Join(chunks, "")))
+			if err != nil {
+				impl = "err " + err.Error()
+			}
+			c.Res.Count("esc:"+e.op+":"+v, false)
+			c.Res.Hist("correspondence:escaper-output")
+			// the model answer is `ok <out> <confined flags>`; the flags are the theorems' claims evaluated
+			m := model[k]
+			fields := strings.Fields(m)
+			if len(fields) < 2 || fields[0]+" "+fields[1] != impl {
+				c.Res.AddBreak(proto.Break{Kind: "correspondence", Name: "escaper-" + e.op + "-vs-Model.Escape", Case: lines[k],
+					Human: fmt.Sprintf("%s(%q)", e.op, v), Impl: impl, Model: m})
+			} else if len(fields) >= 3 && strings.Contains(fields[2], "0") && !(v == "" && (e.op == "attr10" || e.op == "attr00" || e.op == "path0")) {
+				c.Res.AddBreak(proto.Break{Kind: "correspondence", Name: "model-output-not-confined-" + e.op, Case: lines[k],
+					Human: fmt.Sprintf("%s(%q): the Lean slot scanners reject the model's own output (a Layer-1 theorem would be false)", e.op, v), Impl: impl, Model: m})
+			}
+			k++
+		}
+	}
+	return nil
+}
+
+// specValidation: "confined" according to Spec/Slots.lean implies that the reference tokenizer of
+// the enclosing language sees the same structure as for a benign content.
+func specValidation(c *hx.Ctx) error {
+	if c.D == nil {
+		return nil
+	}
+	type probe struct {
+		which  string
+		render func(s string) string
+		format string
+	}
+	probes := []probe{
+		{"data", func(s string) string { return "<p>" + s + "</p><i>" }, "html"},
+		{"dq", func(s string) string { return `<p a="` + s + `" b=c><i>` }, "html"},
+		{"sq", func(s string) string { return `<p a='` + s + `' b=c><i>` }, "html"},
+		{"unq", func(s string) string { return `<p a=` + s + ` b=c><i>` }, "html"},
+		{"name", func(s string) string { return `<p ` + s + ` b=c><i>` }, "html"},
+		{"raw", func(s string) string { return `<script>"` + s + `"</script><i>` }, "html-rawonly"},
+		{"jsdq", func(s string) string { return `a = "` + s + `"; b` }, "js"},
+		{"jssq", func(s string) string { return `a = '` + s + `'; b` }, "js"},
+		{"json", func(s string) string { return `["` + s + `", 1]` }, "json"},
+		{"cssdq", func(s string) string { return `a { b: "` + s + `"; c: d }` }, "css"},
+		{"csssq", func(s string) string { return `a { b: '` + s + `'; c: d }` }, "css"},
+	}
+	n := c.N(2500, 20000)
+	var vals []string
+	for i := 0; i < n; i++ {
+		v := randValue(c.R)
+		if i%3 == 0 {
+			// escaped forms, so that "confined" is not rare
+			ch, _, _ := hook7.Escape([]string{"html", "js", "css", "attr"}[i%4], v, true, i%2 == 0)
+			v = strings.Join(ch, "")
+		}
+		vals = append(vals, v)
+	}
+	var lines []string
+	for _, v := range vals {
+		for _, p := range probes {
+			lines = append(lines, "C06 scan "+p.which+" "+proto.Hex([]byte(v)))
+		}
+	}
+	ans, err := c.D.Batch(lines)
+	if err != nil {
+		return err
+	}
+	k := 0
+	for _, v := range vals {
+		for _, p := range probes {
+			a := ans[k]
+			k++
+			if a != "ok 1" {
+				if a != "ok 0" {
+					return fmt.Errorf("driver: %q -> %q", lines[k-1], a)
+				}
+				c.Res.SpecChecks["slot-scanner-says-not-confined"]++
+				continue
+			}
+			if p.which == "json" && !utf8.ValidString(v) {
+				continue
+			}
+			var same bool
+			if p.format == "html-rawonly" {
+				same = sigOf(htmlTokens(p.render(v))) == sigOf(htmlTokens(p.render("x")))
+			} else {
+				same = sigOf(structure(p.format, p.render(v), false)) == sigOf(structure(p.format, p.render("x"), false))
+			}
+			c.Res.SpecChecks["confined-implies-same-structure:"+p.which]++
+			if !same {
+				c.Res.AddBreak(proto.Break{Kind: "correspondence", Name: "spec-validation-" + p.which, Case: lines[k-1],
+					Human: fmt.Sprintf("Spec/Slots says %q is confined in slot %s, the reference tokenizer sees a different structure for %q", v, p.which, p.render(v)),
+					Impl: "different structure", Model: a})
+			}
+		}
+	}
+	return nil
 }
